@@ -528,7 +528,73 @@ func worker(id int, scratch string, ch <-chan *Edge, wg *sync.WaitGroup) {
 	os.RemoveAll(dir)
 }
 
+// lengthSweep: passwords of boundary lengths (arbitrary bytes) are stored through the real API and
+// must authenticate, while every truncation / extension / single-byte change of them must not.
+func lengthSweep(scratch string) {
+	lengths := []int{0, 1, 2, 31, 32, 33, 55, 56, 63, 64, 65, 71, 72, 73, 127, 128, 129, 255, 256, 257, 511, 512, 513,
+		1023, 1024, 1025, 2047, 2048, 2049, 4095, 4096, 4097, 8192, 16385, 65535, 65536, 65537, 200000}
+	rng := rand.New(rand.NewSource(seed*13 + 5))
+	for _, def := range []uint{1, 2} {
+		e := &Edge{Op: "auth", Def: def, Pre: map[string]FileState{}, Post: map[string]FileState{}}
+		sb := newSandbox(filepath.Join(scratch, fmt.Sprintf("len%d", def)), e, 0)
+		d, err := store.NewDirFromConfig(sb.cfg)
+		must(err)
+		algo := algoOf(def)
+		for i, L := range lengths {
+			pw := make([]byte, L)
+			rng.Read(pw)
+			if L > 0 && pw[L-1] == 0 {
+				pw[L-1] = 1 // trailing NULs are the documented scrypt equivalence, keep them out
+			}
+			p := string(pw)
+			user := fmt.Sprintf("len%d", i)
+			if err := d.AddUser(user, p, false); err != nil {
+				violate("C01", fmt.Sprintf("length-sweep:%s:add:L=%d", algo, L), err.Error(), nil, "")
+				continue
+			}
+			ok, _, _, _, _ := d.Authenticate(user, p)
+			if !ok {
+				violate("C01", fmt.Sprintf("length-sweep:%s:own-password-rejected", algo), fmt.Sprintf("L=%d", L), nil, "")
+			}
+			probes := map[string]string{"ext1": p + "x", "extNUL+": p + "\x00x"}
+			if L > 0 {
+				probes["trunc1"] = p[:L-1]
+				fl := []byte(p)
+				fl[L-1] ^= 0x40
+				probes["fliplast"] = string(fl)
+				ff := []byte(p)
+				ff[0] ^= 0x01
+				probes["flipfirst"] = string(ff)
+				fm := []byte(p)
+				fm[L/2] ^= 0x80
+				probes["flipmid"] = string(fm)
+			}
+			for _, cut := range []int{8, 16, 32, 55, 56, 64, 72, 128, 255, 256, 512, 1000, 1024, 2048, 4096, 8192, 65535, 65536} {
+				if cut < L {
+					probes[fmt.Sprintf("trunc@%d", cut)] = p[:cut]
+				}
+			}
+			for kind, q := range probes {
+				if q == p || (algo == "scrypt" && concrete.ScryptEquivalent(q, p)) {
+					continue
+				}
+				ok, _, _, _, _ := d.Authenticate(user, q)
+				mu.Lock()
+				out.NearMisses++
+				out.Executions++
+				mu.Unlock()
+				if ok {
+					violate("C01", fmt.Sprintf("length-sweep:%s:near-miss-accepted:%s", algo, kind),
+						fmt.Sprintf("stored password of %d bytes, accepted %s (%d bytes)", L, kind, len(q)), nil, "")
+				}
+			}
+		}
+		os.RemoveAll(filepath.Join(scratch, fmt.Sprintf("len%d", def)))
+	}
+}
+
 func main() {
+	sweep := flag.Bool("lengthsweep", false, "also run the password-length boundary sweep")
 	edgesFile := flag.String("edges", "", "ndjson file with one Store edge per line")
 	scratch := flag.String("scratch", "/dev/shm/verif-storereplay", "scratch directory")
 	workers := flag.Int("workers", 16, "parallel workers")
@@ -567,6 +633,9 @@ func main() {
 	}
 	close(ch)
 	wg.Wait()
+	if *sweep {
+		lengthSweep(*scratch)
+	}
 	out.Distinct = len(distinct)
 	out.ElapsedSecs = time.Since(start).Seconds()
 	sort.Slice(out.Violations, func(i, j int) bool { return out.Violations[i].Key < out.Violations[j].Key })
